@@ -773,7 +773,11 @@ def _raw_interp():
         cwd = os.getcwd()
     except OSError:
         cwd = "<gone>"
-    return {"cwd": cwd, "trace": sys.gettrace(), "profile": sys.getprofile(),
+    try:
+        nfds = len(os.listdir("/proc/self/fd")) - 1  # minus the descriptor of this listing itself
+    except OSError:
+        nfds = -1
+    return {"cwd": cwd, "open_descriptors": nfds, "trace": sys.gettrace(), "profile": sys.getprofile(),
             "sigint": signal.getsignal(signal.SIGINT), "sigpipe": signal.getsignal(signal.SIGPIPE),
             "sys_path_len": len(sys.path), "umask": _umask(), "dont_write_bytecode": sys.dont_write_bytecode,
             "excepthook": sys.excepthook, "displayhook": sys.displayhook,
